@@ -862,6 +862,10 @@ def main(run):
             do_case("sbx", [-1.0], [(g1, None), (g2, None)], [gen_u(rng) for _ in range(n)], [], False,
                     "CSbx %s %s %s" % (cfloat(-1.0), cind(0, g1, None), cind(1, g2, None)))
 
+    # observation outside the statement (documented, not judged): mutPolynomialBounded tests `random() <= indpb`
+    ob = execute("poly", [20.0, 0.0, 1.0, 0.0], [([0.5], None)], [0.0, 0.25], [], lf=False)
+    run.extra_cov["observation_poly_indpb0_draw0"] = {"input": [0.5], "indpb": 0.0, "draws": [0.0, 0.25],
+                                                      "output": ob.get("out_genes"), "mutated": ob.get("out_genes") != [[0.5]]}
     run.search_fn = search
     run.extra_cov["per_operator"] = stats
     run.correspond("all", "C10", terms, cases, shard=300, requires=["From Coq Require Import PrimFloat."])
